@@ -58,6 +58,10 @@ def skeletons():
     S_["hybrid-weighted-first"] = {"inputs": ins2, "outputs": [out("P", ("WeightedAverage",), CONST, None), out("O", ("Centroid", 2)),
                                                                out("Q", ("WeightedSum",), CONST, None), out("R", ("Bisector", 2))],
                                    "blocks": [blk(["if X is a then P is a and O is a", "if Y is b or X is b then O is b and Q is b and R is a"])]}
+    # a rule whose consequent fails to load after its first conclusion (the loader's error is swallowed): the rule must stay unloaded
+    bad = blk(["if X is a and Y is b then O is a", "if X is b then O is b and O is nosuchterm", "if Y is a then O is a and nosuchvariable is b"])
+    bad["tolerate_rule_errors"] = True
+    S_["rule-with-unloadable-consequent"] = {"inputs": ins2, "outputs": [out("O", ("Centroid", 2))], "blocks": [bad]}
     S_["first-activation"] = {"inputs": ins2, "outputs": [out("O", ("LargestOfMaximum", 2))],
                               "blocks": [blk(["if X is a and Y is b then O is a", "if X is b or Y is a then O is b"], ("First", 1, 0.0))]}
     return S_
